@@ -254,8 +254,10 @@ theorem build_meta (pool : Pool) (pd : Pend) (r : BuildOut) (h : build pool pd =
       · simp at h; subst h; simp
       · split at h
         · simp at h
-        · rename_i txs ok _
-          split at h <;> (simp at h; subst h; simp)
+        · split at h
+          · simp at h
+          · rename_i txs ok _
+            split at h <;> (simp at h; subst h; simp)
 
 theorem pendList_mem (pool : Pool) (now timeout : Int) (l : List Pend) (keep : List Pend)
     (posted : List (Slots × Pend)) (tmo : List Pend) (h : pendList pool now timeout l = .ok (keep, posted, tmo))
